@@ -21,6 +21,7 @@
 EXTENDS AioTG, P_TG, Json
 
 CONSTANTS Ops, MaxOps, MaxEnv, EnvKinds, MaxDepth, Shields, Cleanups, Pres,
+          LeafFrom,  \* tasks numbered >= LeafFrom perform at most one operation (bounds deep task trees)
           Orders     \* subset of BOOLEAN: iteration orders of the scopes' task / child-scope sets to explore
 
 VARIABLES L,         \* [tg |-> task-group state, ev |-> the shared Event]
@@ -124,10 +125,10 @@ WaitStep(q, ev, t) ==
 (****************************** client *************************************)
 ClientChoose(t) ==
   /\ At(K, t, "client", "choose")
-  /\ LET n == Top(K, t).a
+  /\ LET n == IF t >= LeafFrom /\ Top(K, t).a >= 1 THEN MaxOps ELSE Top(K, t).a
          st == Top(K, t).b
-         bump(q) == SetTop(q, t, [Top(q, t) EXCEPT !.a = n + 1])
-         bumpS(q) == SetTop(q, t, [Top(q, t) EXCEPT !.a = n + 1, !.b.ns = @ + 1])
+         bump(q) == SetTop(q, t, [Top(q, t) EXCEPT !.a = @ + 1])
+         bumpS(q) == SetTop(q, t, [Top(q, t) EXCEPT !.a = @ + 1, !.b.ns = @ + 1])
          d0 == Depth(K, t)
          asyncop(name, fr) ==
             /\ K' = Call(bump(K), t, "ret", fr)
@@ -218,7 +219,7 @@ ClientChoose(t) ==
         /\ UNCHANGED <<L, E>>
      \/ /\ n < MaxOps /\ "raise" \in Ops
         /\ K' = SetPc(SetTop([K EXCEPT !.T[t].reg = Err("E" \o ToString(10 * t + st.errs))], t,
-                             [Top(K, t) EXCEPT !.a = n + 1, !.b.errs = @ + 1]), t, "unwind")
+                             [Top(K, t) EXCEPT !.a = @ + 1, !.b.errs = @ + 1]), t, "unwind")
         /\ hist' = Append(hist, H(t, "raise", 0, 0, 0))
         /\ UNCHANGED <<L, E, pst, pbad>>
      \/ /\ K' = SetTop([K EXCEPT !.T[t].reg = Val], t,
